@@ -79,9 +79,14 @@ def _run_one(h, u, repo, env, timeout, playback=False):
         return h, cmd, '', time.time() - t0, True
 
 
-def run(units, repo, tier, jobs=6):
+def run(units, repo, tier, jobs=4):
     import concurrent.futures as cf
     os.makedirs(TARGET, exist_ok=True)
+    # one Kani phase at a time on this machine (several ./check processes may run concurrently; a CBMC run can take
+    # many GB, and the shared target directory would be rebuilt back and forth for different --repo trees)
+    import fcntl
+    lock = open(os.path.join(os.path.dirname(TARGET), 'kani.lock'), 'w')
+    fcntl.flock(lock, fcntl.LOCK_EX)
     env = dict(os.environ)
     env['CARGO_NET_OFFLINE'] = 'true'
     env['CARGO_TARGET_DIR'] = TARGET
@@ -156,6 +161,12 @@ def run(units, repo, tier, jobs=6):
             if r['unwinding_failed'] and not real:
                 status = 'undecided'
                 kr['reason'] = 'unwinding bound too small in %s' % h
+                continue
+            if not real and not r['failed']:
+                # FAILED without a single failed check: the back end died (out of memory, killed, internal error) -
+                # a tool failure, never an alarm
+                status = 'undecided'
+                kr['reason'] = 'kani reported FAILED for %s without any failed check (back end killed / out of memory?)' % h
                 continue
             if status != 'undecided':
                 status = 'failed'
